@@ -3,6 +3,7 @@ package props
 import (
 	stdjson "encoding/json"
 	"fmt"
+	"math/big"
 	"sort"
 	"strconv"
 	"strings"
@@ -320,6 +321,29 @@ func c01Specs() []leafSpec {
 			}
 		}
 	}
+	// bounds and values around the machine-word and float64-mantissa limits (19-21 digits and beyond)
+	for _, b := range []string{"9007199254740993", "9223372036854775807", "9223372036854775808", "-9223372036854775808", "9999999999999999999", "10000000000000000000",
+		"18446744073709551615", "18446744073709551616", "-18446744073709551616", "99999999999999999999", "100000000000000000000", "123456789012345678901234567890"} {
+		n, _ := new(big.Int).SetString(b, 10)
+		one := big.NewInt(1)
+		ints := []string{b, new(big.Int).Add(n, one).String(), new(big.Int).Sub(n, one).String(), new(big.Int).Neg(n).String(), "0", "1",
+			"10000000000000000000", "20000000000000000000", "18446744073709551615", "18446744073709551616", "36893488147419103232", "9223372036854775808", "99999999999999999999"}
+		floats := []string{b + ".0", b + ".5", new(big.Int).Sub(n, one).String() + ".99", b + ".00", "0.5", "18446744073709551616.5"}
+		for _, rn := range []string{"min", "max"} {
+			for _, excl := range []string{"", "true"} {
+				rules := []gen.Rule{{Name: rn, Val: lit(b)}}
+				if excl != "" {
+					rules = append(rules, gen.Rule{Name: map[string]string{"min": "exclusiveMinimum", "max": "exclusiveMaximum"}[rn], Val: lit(excl)})
+				}
+				exI, exF := "1"+strings.Repeat("0", 40), "1"+strings.Repeat("0", 40)+".5"
+				if rn == "max" {
+					exI, exF = "-"+exI, "-"+exF
+				}
+				specs = append(specs, leafSpec{rn + " " + b + " excl=" + excl + " big ints", rules, "integer", exI, ints})
+				specs = append(specs, leafSpec{rn + " " + b + " excl=" + excl + " big floats", rules, "float", exF, floats})
+			}
+		}
+	}
 	// both bounds, both exclusivity flags, values on and next to both bounds
 	for _, lo := range []string{"1", "-2.5"} {
 		for _, hi := range []string{"5", "2.50"} {
@@ -467,6 +491,78 @@ func c01Run(r *mon.Run) {
 			r.Sample(map[string]any{"kind": "random", "project": projectKey(toTexts(p, l)), "reference": w.String()})
 		}
 	}
+	// (3) several values in one schema judged against choice types that share alternatives (@a = @c | @i,
+	// @b = @c | @t, @d = @a | @t ...): the verdict of one value must not depend on which values were judged before it
+	leaves := []gen.NamedNode{
+		{Name: "@c", Node: gen.Str("abc").R("minLength", "2")},
+		{Name: "@i", Node: gen.Int("5").R("min", "0")},
+		{Name: "@t", Node: &gen.Node{Kind: gen.KBool, Lit: "true"}},
+		{Name: "@f", Node: &gen.Node{Kind: gen.KFloat, Lit: "1.5"}},
+		{Name: "@n", Node: gen.Int("-5").R("max", "-1")},
+	}
+	examples := []string{`"xyz"`, `"x"`, "7", "-7", "true", "2.25", "0", `"ab"`, "null", "false"}
+	nm := r.Share(r.Pick(12_000, 300_000))
+	for i := 0; i < nm; i++ {
+		p := &gen.Project{Types: append([]gen.NamedNode(nil), leaves...)}
+		var names []string
+		reach := map[string][]string{} // leaves behind a name
+		for _, l := range leaves {
+			names = append(names, l.Name)
+			reach[l.Name] = []string{l.Name}
+		}
+		for k, nc := 0, 2+rng.IntN(4); k < nc; k++ { // choice types over what exists so far (earlier choices included)
+			a, b := names[rng.IntN(len(names))], names[rng.IntN(len(names))]
+			if a == b {
+				continue
+			}
+			name := fmt.Sprintf("@x%d", k)
+			alts := []string{a, b}
+			if rng.IntN(4) == 0 {
+				if c := names[rng.IntN(len(names))]; c != a && c != b {
+					alts = append(alts, c)
+				}
+			}
+			p.Types = append(p.Types, gen.NamedNode{Name: name, Node: gen.Ref(alts...)})
+			names = append(names, name)
+			for _, a := range alts {
+				reach[name] = append(reach[name], reach[a]...)
+			}
+		}
+		var members []*gen.Node
+		for k, nv := 0, 2+rng.IntN(4); k < nv; k++ {
+			ex := examples[rng.IntN(len(examples))]
+			t1, t2 := names[rng.IntN(len(names))], names[rng.IntN(len(names))]
+			for t2 == t1 { // a name listed twice is refused as a recursion (1303) whatever the example is
+				t2 = names[rng.IntN(len(names))]
+			}
+			if rng.IntN(5) != 0 { // mostly a value that fits one of the leaves behind the first name
+				fits := map[string][]string{"@c": {`"xyz"`, `"ab"`}, "@i": {"7", "0"}, "@t": {"true", "false"}, "@f": {"2.25"}, "@n": {"-7"}}
+				l := reach[t1][rng.IntN(len(reach[t1]))]
+				ex = fits[l][rng.IntN(len(fits[l]))]
+			}
+			n := &gen.Node{Kind: gen.KindOfLiteral(ex), Lit: ex}
+			switch rng.IntN(4) {
+			case 0:
+				n.R("type", gen.Q(t1))
+			case 1:
+				n.RVal("or", gen.ListOf(gen.LitV(gen.Q(t1)), gen.LitV(gen.Q(t2))))
+			case 2:
+				n.RVal("or", gen.ListOf(gen.SetOf(gen.Rule{Name: "type", Val: gen.LitV(gen.Q(t1))}), gen.LitV(gen.Q(t2))))
+			default:
+				n.RVal("or", gen.ListOf(gen.LitV(gen.Q(t1)), gen.LitV(`"object"`)))
+			}
+			members = append(members, n.K(fmt.Sprintf("m%d", k)))
+		}
+		p.Root = gen.Obj(members...)
+		w, ok := c01Judge(r, p, gen.DefaultLayout, true)
+		if ok {
+			r.Nontrivial("multi", projectKey(toTexts(p, gen.DefaultLayout)))
+			r.Count("multi_value_reference_"+w.String(), 1)
+		}
+		if i == 0 {
+			r.Sample(map[string]any{"kind": "several values over shared choice types", "project": projectKey(toTexts(p, gen.DefaultLayout)), "reference": w.String()})
+		}
+	}
 }
 
 func init() {
@@ -479,7 +575,7 @@ func init() {
 				c01Judge(r, c.Project, c.Layout, false)
 			}
 		},
-		Rule:               "projects (root + user types + regex types + enum rules) are built from a rule/type compatibility table so that they are structurally valid, printed to text and given to Check(); an independent evaluator (exact decimals, Go regexp, calendar checks, labelled email/uri pools) computes for every example value whether it satisfies the rules written next to it, directly or through type references / or alternatives / choice types / named enums. Grid (complete): every rule kind (min/max x exclusivity x 8 bounds, minLength/maxLength, regex, precision, 5 formats, enum sets, const) x every boundary value class x 12 placements (direct, object member, array item, with nullable, via type:\"@t\", via or of user types, via type of type, via a choice type, via or rule-sets {type:\"@t\"} / {type:\"@t\", nullable:true} in both orders, via an or rule-set with the rules inline). Random: generated projects with values drawn next to their bounds. A case is non-trivial when the reference verdict is satisfies or violates (not unspecified) and the library's answer was judged; distinct by printed text (hashed).",
+		Rule:               "projects (root + user types + regex types + enum rules) are built from a rule/type compatibility table so that they are structurally valid, printed to text and given to Check(); an independent evaluator (exact decimals, Go regexp, calendar checks, labelled email/uri pools) computes for every example value whether it satisfies the rules written next to it, directly or through type references / or alternatives / choice types / named enums. Grid (complete): every rule kind (min/max x exclusivity x 8 bounds, plus 12 bounds of 16-30 digits around 2^53, 2^63, 2^64, 10^19, 10^20 with values on, next to and far from them, minLength/maxLength, regex, precision, 5 formats, enum sets, const) x every boundary value class x 12 placements (direct, object member, array item, with nullable, via type:\"@t\", via or of user types, via type of type, via a choice type, via or rule-sets {type:\"@t\"} / {type:\"@t\", nullable:true} in both orders, via an or rule-set with the rules inline). Random: generated projects with values drawn next to their bounds; objects of 2-5 values referring (type / or / or rule-set) to choice types that share alternatives. A case is non-trivial when the reference verdict is satisfies or violates (not unspecified) and the library's answer was judged; distinct by printed text (hashed).",
 		MinNontrivialQuick: 20000, MinNontrivialThorough: 300000,
 		MaxInconclusiveFrac: 0.10,
 		Assumptions: []string{"reference evaluator harness/internal/ref/eval.go written from the property statement and README wording; corners the documentation leaves open are 'unspecified' and never produce a violation (byte vs rune length, numbers equal in value but not in text, integer literal under type float, null example under an explicit non-null type with nullable, trailing zeros deciding precision, email/uri outside labelled pools)",
